@@ -85,7 +85,7 @@ func (r *Report) Floor(rule string, n int, what string) {
 func (r *Report) Count(rule string) int { return r.rulesSeen[rule] }
 
 func (r *Report) Note(format string, a ...any) { r.Notes = append(r.Notes, fmt.Sprintf(format, a...)) }
-func (r *Report) Assume(s string)               { r.Assumptions = append(r.Assumptions, s) }
+func (r *Report) Assume(s string)              { r.Assumptions = append(r.Assumptions, s) }
 func (r *Report) Broken(format string, a ...any) {
 	r.broken = append(r.broken, fmt.Sprintf(format, a...))
 }
@@ -197,24 +197,24 @@ func (r *Report) Finish(verifDir string, seed int64) int {
 		}
 	}
 	cov := map[string]any{
-		"explanation": r.explanation,
-		"obligations": len(obs),
-		"discharged":  discharged,
-		"known_findings": len(knownHits),
-		"evaluations": len(obs),
+		"explanation":         r.explanation,
+		"obligations":         len(obs),
+		"discharged":          discharged,
+		"known_findings":      len(knownHits),
+		"evaluations":         len(obs),
 		"distinct_nontrivial": len(ruleList),
-		"rule": "one obligation per (rule, function, construct) site enumerated from the SSA/type-checked program of /repo; distinct_nontrivial counts distinct rule ids that matched at least one site",
-		"rules":              ruleList,
-		"samples":            samples,
-		"exhaustive":         true,
-		"packages_analysed":  npk,
-		"functions_analysed": nfuncs,
-		"controls":           r.Controls,
-		"mutant_witnesses":   r.Mutants,
-		"mutants_fired":      fired,
-		"notes":              r.Notes,
-		"checker_cmd":        fmt.Sprintf("bin/check %s %s", r.Prop, r.Tier),
-		"trusted_base":       []string{"go/types", "golang.org/x/tools/go/packages", "golang.org/x/tools/go/ssa v0.29.0", "the rule tables in /verif/checker"},
+		"rule":                "one obligation per (rule, function, construct) site enumerated from the SSA/type-checked program of /repo; distinct_nontrivial counts distinct rule ids that matched at least one site",
+		"rules":               ruleList,
+		"samples":             samples,
+		"exhaustive":          true,
+		"packages_analysed":   npk,
+		"functions_analysed":  nfuncs,
+		"controls":            r.Controls,
+		"mutant_witnesses":    r.Mutants,
+		"mutants_fired":       fired,
+		"notes":               r.Notes,
+		"checker_cmd":         fmt.Sprintf("bin/check %s %s", r.Prop, r.Tier),
+		"trusted_base":        []string{"go/types", "golang.org/x/tools/go/packages", "golang.org/x/tools/go/ssa v0.29.0", "the rule tables in /verif/checker"},
 	}
 	assumptions := append([]string{
 		"go/types, go/packages and go/ssa (x/tools v0.29.0) model the program faithfully; production files only (no _test.go), default build tags on linux/amd64",
